@@ -16,7 +16,7 @@ func runC12(res *lib.Result, tier string, seed int64, args []string) error {
 	if tier == "thorough" {
 		nProg = 3000
 	}
-	res.Rule = "generated programs as in C05 and the repository's own testdata/define files; for EVERY identifier occurrence p the four real answers are cross-compared WITHOUT an oracle: (i) every reference of p resolves (definition) to the declaration p resolves to, (ii) p is among the references found from its declaration, (iii) documentHighlight(p) = references(p), (iv) hover names the identifier and says 'local' exactly when the definition is a local declaration; an inconsistency is excused only if the name has an occurrence in a C05/C06 finding class (computed by the driver); non-trivial = p has a definition; distinct by (program, position)"
+	res.Rule = "generated programs as in C05 and the repository's own testdata/define files; for EVERY identifier occurrence p the four real answers are cross-compared WITHOUT an oracle: (i) every reference of p resolves (definition) to the declaration p resolves to, (ii) p is among the references found from its declaration, (iii) documentHighlight(p) = references(p), (iv) hover names the identifier and says 'local' exactly when the definition is a local declaration; an inconsistency is excused only if the name has an occurrence in a C05/C06 finding class (computed by the driver); second family: workspaces of several files (a module table returned by one file and required through differently named locals by others; ---@type-annotated locals / globals aliased by un-annotated variables of the opposite kind), every identifier token of every file, the same four comparisons across files; non-trivial = p has a definition; distinct by (program, position)"
 	drv, err := lib.StartDriver()
 	if err != nil {
 		return err
@@ -25,7 +25,14 @@ func runC12(res *lib.Result, tier string, seed int64, args []string) error {
 	dir := lib.ScratchDir("c12")
 	defer os.RemoveAll(dir)
 	root := lib.NewRng(uint64(seed))
-	for pi, src := range scopePrograms(root, "C12", nProg) {
+	if os.Getenv("VERIF_C12_MULTI_ONLY") != "" {
+		nProg = 0
+	}
+	progs := scopePrograms(root, "C12", nProg)
+	if os.Getenv("VERIF_C12_MULTI_ONLY") != "" {
+		progs = nil
+	}
+	for pi, src := range progs {
 		occs, sess, err := scopeProgram(drv, dir, src)
 		if err != nil {
 			return err
@@ -163,6 +170,29 @@ func runC12(res *lib.Result, tier string, seed int64, args []string) error {
 			res.AddViolation("inconsistent-answers", strings.Join(problems, "; "), caseText, false)
 		}
 		sess.Close()
+	}
+	// second family: module workspaces and annotated aliases, cross-file
+	nMulti := 30
+	if tier == "thorough" {
+		nMulti = 1500
+	}
+	for i := 0; i < nMulti; i++ {
+		if v := os.Getenv("VERIF_C12_ONLY_ITER"); v != "" && v != fmt.Sprint(i) {
+			continue
+		}
+		r := root.Fork(uint64(9000000 + i))
+		d1 := lib.ScratchDir(fmt.Sprintf("c12m%d", i))
+		err := c12Multi(res, d1, genModuleWorkspace(r), "module", i)
+		os.RemoveAll(d1)
+		if err != nil {
+			return err
+		}
+		d2 := lib.ScratchDir(fmt.Sprintf("c12a%d", i))
+		err = c12Multi(res, d2, genAnnotWorkspace(r), "annot", i)
+		os.RemoveAll(d2)
+		if err != nil {
+			return err
+		}
 	}
 	return nil
 }
